@@ -22,7 +22,7 @@ pub enum LifeOp {
     DropRuntime { r: usize },
     Compile { r: usize, p: usize, m: u64, k: u64 },
     CompileBroken { r: usize, m: u64, k: u64 },
-    /// which: 0 = f(u64)->u64, 1 = s(String)->String, 2 = t(Tr)->Tr
+    /// which: 0 = f(u64)->u64, 1 = s(String)->String, 2 = t(Tr)->Tr, 3 = the script's test case (get_tests)
     GetHandle { p: usize, h: usize, which: u8 },
     CloneHandle { src: usize, dst: usize },
     Call { h: usize, x: u64 },
@@ -86,9 +86,15 @@ fn take_hostlog() -> Vec<(&'static str, u64)> {
 fn mk_runtime(rid: u64) -> Runtime<NoCtx> {
     let cap = T24::new(100 + rid);
     let k = Val(T24::new(200 + rid));
+    let ko: Option<Val<T24>> = Some(Val(T24::new(300 + rid)));
+    let ks: Option<RotoString> = Some(RotoString::from(format!("ks{rid}")));
+    let kl: roto::List<u64> = roto::List::from(vec![rid, rid + 1]);
     Runtime::from_lib(library! {
         #[clone] type Tr = Val<T24>;
         const K: Val<T24> = k;
+        const KO: Option<Val<T24>> = ko;
+        const KS: Option<RotoString> = ks;
+        const KL: roto::List<u64> = kl;
         fn mk(x: u64) -> Val<T24> {
             {
                 let _mg = alloc::ModeGuard::new(alloc::MODE_PLAIN);
@@ -160,8 +166,23 @@ fn opt_{k}() -> u64 {{
         None => 0,
     }}
 }}
-fn f(x: u64) -> u64 {{ {b} log(x); let part_{k} = helper_{k}(x); let rc = {rc}; part_{k} + val({c}) + val({d}) + val(K) + cap() + {l}.len() + {lt}.len() + opt_{k}() + rc.n + val(rc.t) }}
-fn s(a: String) -> String {{ let rc = {rc}; a + {s} + rc.s }}
+fn ko_{k}() -> u64 {{
+    match KO {{
+        Some(v) => val(v),
+        None => 0,
+    }}
+}}
+fn ks_{k}() -> String {{
+    match KS {{
+        Some(v) => v,
+        None => "none",
+    }}
+}}
+fn f(x: u64) -> u64 {{ {b} log(x); let part_{k} = helper_{k}(x); let rc = {rc}; part_{k} + val({c}) + val({d}) + val(K) + cap() + {l}.len() + {lt}.len() + opt_{k}() + rc.n + val(rc.t) + ko_{k}() + KL.len() }}
+fn s(a: String) -> String {{ let rc = {rc}; a + {s} + rc.s + ks_{k}() }}
+test keeps_{k} {{
+    if val({c}) == {c0} && cap() > 0 {{ accept }} else {{ reject }}
+}}
 fn t(v: Tr) -> Tr {{ if val(v) > 5 {{ {c} }} else {{ v }} }}
 "#
     )
@@ -180,6 +201,8 @@ struct PkEnt {
 enum Hf {
     /// closure made by `into_func` from an `F` handle
     C(Sendable<Box<dyn Fn(u64) -> u64>>),
+    /// a test case obtained from `Package::get_tests`
+    Test(Sendable<Box<dyn Fn() -> Result<(), ()>>>),
     F(Sendable<TypedFunc<NoCtx, fn(u64) -> u64>>),
     S(Sendable<TypedFunc<NoCtx, fn(RotoString) -> RotoString>>),
     T(Sendable<TypedFunc<NoCtx, fn(Val<T24>) -> Val<T24>>>),
@@ -273,7 +296,7 @@ fn check_not_before(site: &str) {
     }
     for (&rid, _) in &model.rt_clones {
         if model.rt_alive(rid) {
-            for (what, p) in [("registered constant K", 200 + rid), ("state captured by the registered closure", 100 + rid)] {
+            for (what, p) in [("registered constant K", 200 + rid), ("state captured by the registered closure", 100 + rid), ("the tracked value inside the registered constant KO: Option<..>", 300 + rid)] {
                 if live.get(&p).copied().unwrap_or(0) < 1 {
                     viol::record(
                         "released-too-early",
@@ -501,6 +524,16 @@ fn exec_inner(op: &LifeOp) -> bool {
             let f = match which {
                 0 => e.pkg.get_function::<fn(u64) -> u64>("f").map(|f| Hf::F(Sendable(f))).map_err(|x| x.to_string()),
                 1 => e.pkg.get_function::<fn(RotoString) -> RotoString>("s").map(|f| Hf::S(Sendable(f))).map_err(|x| x.to_string()),
+                3 => {
+                    let mut tests: Vec<_> = e.pkg.get_tests().collect();
+                    if tests.len() == 1 {
+                        let t = tests.remove(0);
+                        let b: Box<dyn Fn() -> Result<(), ()>> = Box::new(move || t.run(&mut NoCtx));
+                        Ok(Hf::Test(Sendable(b)))
+                    } else {
+                        Err(format!("get_tests returned {} test cases, the script has 1", tests.len()))
+                    }
+                }
                 _ => e.pkg.get_function::<fn(Val<T24>) -> Val<T24>>("t").map(|f| Hf::T(Sendable(f))).map_err(|x| x.to_string()),
             };
             let m = e.m;
@@ -524,7 +557,7 @@ fn exec_inner(op: &LifeOp) -> bool {
         LifeOp::CloneHandle { src, dst } => {
             let Some(e) = with_pools(|p| p.hds[*src].take()) else { return false };
             let f2 = match &e.f {
-                Hf::C(_) => None,
+                Hf::C(_) | Hf::Test(_) => None,
                 Hf::F(f) => Some(Hf::F(f.clone())),
                 Hf::S(f) => Some(Hf::S(f.clone())),
                 Hf::T(f) => Some(Hf::T(f.clone())),
@@ -569,8 +602,8 @@ fn exec_inner(op: &LifeOp) -> bool {
                         _ => unreachable!(),
                     };
                     let log = take_hostlog();
-                    let want = x.wrapping_mul(k) + 2 * c + (200 + rid) + (100 + rid) + 2 + 1 + (c + 2) + k + (c + 3);
-                    let want_log: Vec<(&str, u64)> = vec![("log", *x), ("val", c), ("val", c), ("val", 200 + rid), ("cap", 100 + rid), ("val", c + 2), ("val", c + 3)];
+                    let want = x.wrapping_mul(k) + 2 * c + (200 + rid) + (100 + rid) + 2 + 1 + (c + 2) + k + (c + 3) + (300 + rid) + 2;
+                    let want_log: Vec<(&str, u64)> = vec![("log", *x), ("val", c), ("val", c), ("val", 200 + rid), ("cap", 100 + rid), ("val", c + 2), ("val", c + 3), ("val", 300 + rid)];
                     if got != want || log != want_log {
                         viol::record(
                             "wrong-result",
@@ -582,8 +615,16 @@ fn exec_inner(op: &LifeOp) -> bool {
                     let got = f.call(RotoString::from("ab"));
                     let log = take_hostlog();
                     let s: &str = got.as_ref();
-                    if s != format!("abv{k}r{k}") || !log.is_empty() {
+                    if s != format!("abv{k}r{k}ks{rid}") || !log.is_empty() {
                         viol::record("wrong-result", format!("s(\"ab\") of module m{} (version {k}) returned {s:?} with host calls {log:?}", e.m));
+                    }
+                }
+                Hf::Test(t) => {
+                    let got = (t.0)();
+                    let log = take_hostlog();
+                    let want_log: Vec<(&str, u64)> = vec![("val", c), ("cap", 100 + rid)];
+                    if got != Ok(()) || log != want_log {
+                        viol::record("wrong-result", format!("test case of module m{} (version {k}) returned {got:?} with host calls {log:?}; expected Ok with {want_log:?}", e.m));
                     }
                 }
                 Hf::T(f) => {
@@ -690,7 +731,7 @@ fn gen_op(r: &mut Rng, s: &mut Sym, weights: &[u32; 11]) -> Option<LifeOp> {
                 let p = *r.pick(&pks);
                 let h = empty_or_any(r, &s.hds);
                 s.hds[h] = s.pks[p];
-                return Some(LifeOp::GetHandle { p, h, which: r.weighted(&[60, 20, 20]) as u8 });
+                return Some(LifeOp::GetHandle { p, h, which: r.weighted(&[52, 18, 18, 12]) as u8 });
             }
             6 if !hds.is_empty() => {
                 let src = *r.pick(&hds);
